@@ -42,6 +42,7 @@ import (
 	"github.com/jig/lisp/lisperror"
 	"github.com/jig/lisp/printer"
 	"github.com/jig/lisp/reader"
+	"github.com/jig/lisp/simhook"
 	. "github.com/jig/lisp/types"
 )
 
@@ -353,6 +354,7 @@ func EVAL(ctx context.Context, ast MalType, env EnvType) (res MalType, e error) 
 	}
 
 	for {
+		simhook.Step(ctx, ast, env)
 		if ctx != nil {
 			select {
 			case <-ctx.Done():
